@@ -16,12 +16,16 @@ type PoolCfg struct {
 	Cap, Buf            int // job queue: channel capacity, overflow maximum
 	Max, StandBy, Batch int
 	Jam                 time.Duration // workerJamDuration; 0: one hour (never reached within a run)
+	Via                 string        // "": individual setters; "settings": NewDefaultWorkerPool(q, &settings copied from a template pool); "set-settings": SetDefaultWorkerPoolSettings + SetJobQueue
 }
 
 func (c PoolCfg) String() string {
 	s := fmt.Sprintf("q%d+%d/max%d/standby%d/batch%d", c.Cap, c.Buf, c.Max, c.StandBy, c.Batch)
 	if c.Jam > 0 {
 		s += fmt.Sprintf("/jam%v", c.Jam)
+	}
+	if c.Via != "" {
+		s += "/via-" + c.Via
 	}
 	return s
 }
@@ -43,6 +47,18 @@ func NewPool(c PoolCfg, panicHandler func(interface{})) *worker.DefaultWorkerPoo
 		p.SetWorkerJamDuration(c.Jam)
 	}
 	p.SetScheduleRetryInterval(2 * time.Millisecond)
+	switch c.Via {
+	case "settings":
+		// p is only a template (stand-by 0, never used): its settings struct configures the real pool
+		st := p.DefaultWorkerPoolSettings
+		p = worker.NewDefaultWorkerPool(fpgo.NewBufferedChannelQueue[func()](c.Cap, c.Buf, 100), &st)
+	case "set-settings":
+		st := p.DefaultWorkerPoolSettings
+		p = worker.NewDefaultWorkerPool(fpgo.NewBufferedChannelQueue[func()](1, 0, 100), nil)
+		p.SetWorkerSizeStandBy(0)
+		p.SetJobQueue(fpgo.NewBufferedChannelQueue[func()](c.Cap, c.Buf, 100)) // before first use
+		p.SetDefaultWorkerPoolSettings(st)
+	}
 	p.SetWorkerSizeStandBy(c.StandBy)
 	return p
 }
